@@ -563,7 +563,7 @@ class Ctx:
                     s_ = int(rng.integers(-3, 4))
                     c.append(t(x) * (t(1) + t(s_) * t(2.0) ** t(-(pT - 1 - r_))))
                 cands.append(c)
-            for sc in (1.0, 3.0, 1e-3, 1e3, 7.0, 1e-6, 1e6) + ((1e-9, 1e9, 1e-2, 1e2, 1e-5, 1e5, 1e-7, 1e7) if (wide and w.in_ty != 'f32') else ((1e-2, 1e2, 1e-5, 1e5) if wide else ())):
+            for sc in (1.0, 3.0, 1e-3, 1e3, 7.0, 1e-6, 1e6) + ((1e-9, 1e9, 1e-2, 1e2, 1e-5, 1e5, 1e-7, 1e7) if (wide and w.in_ty != 'f32') else ((1e-2, 1e2) if wide else ())):
                 for _ in range(6):
                     c = [t(x) * t(sc) * t(1.0 + 0.37 * rng.random()) for x in xs]
                     cands.append(c)
